@@ -490,10 +490,10 @@ pub fn main(args: &[String]) -> i32 {
     // (sim, quick seeds, quick scenarios per seed, thorough seeds, thorough scenarios per seed)
     let miri_plan: Option<(&str, u64, u64, u64, u64)> = match prop.as_str() {
         "C18" => Some(("cache", 32, 6, 512, 8)),
-        "C13" => Some(("lazy", 0, 0, 96, 6)), // thorough tier only
-        "C05" => Some(("io", 0, 0, 48, 8)),   // thorough tier only
+        "C13" => Some(("lazy", 8, 3, 96, 6)),
+        "C05" => Some(("io", 8, 4, 48, 8)),
         "C16" => Some(("arena", 12, 2, 128, 3)),
-        "C15" => Some(("dom", 0, 0, 32, 3)),  // thorough tier only
+        "C15" => Some(("dom", 0, 0, 32, 3)), // thorough tier only: a dom history takes Miri ~15 s
         _ => None,
     };
     if let (Some((msim, qs, qc, ts, tc)), false) = (miri_plan, args.iter().any(|a| a == "--no-miri")) {
